@@ -8,11 +8,31 @@ from ..core import Case
 from .common import PropBase
 
 
+SEQS = [b"\x1b[15~", b"\x1b[1;5A", b"\x1b[5~", b"\x1bOP", b"\x9b3;2~", b"\x1b[M !!", b"\x1b[24;6~", b"a", b"\r\n", b"\x1b\x1b[Z",
+        b"\x1b[?25h", b"\x8fQ", b"\x1b[2;3;4m"]
+
+
+def input_script(r):
+    """an `I` line: 1-3 decoders, key sequences split across deliveries at random positions (so a sequence is
+    regularly in progress in one decoder while another decoder is fed)"""
+    runs = []
+    for _ in range(r.choice([1, 2, 3])):
+        data = b"".join(r.choice(SEQS) for _ in range(r.choice([1, 2, 4, 7])))
+        cuts = sorted(set(r.randrange(0, len(data) + 1) for _ in range(r.choice([1, 2, 4, 8]))))
+        chunks, prev = [], 0
+        for c in cuts + [len(data)]:
+            chunks.append(data[prev:c])
+            prev = c
+        runs.append(",".join(ch.hex() if ch else "-" for ch in chunks))
+    return "I " + " / ".join(runs)
+
+
 class Prop(PropBase):
     ID = "C12"
     LEAN_MODULES = ["Tpp.Props.C12"]
     REQUIRED = ["Tpp.Props.C12." + n for n in ("C12_interleave", "C12_terminals", "no_mutable_statics")]
-    RULE = ("sets of 2-8 per-object scripts (terminals with different behaviours, screens, markup/string/value one-shot "
+    RULE = ("sets of 2-8 per-object scripts (terminals with different behaviours, screens, input decoders fed key sequences "
+            "split across deliveries, markup/string/value one-shot "
             "cases) are executed with all objects alive at once: round-robin, several seeded random interleavings on one "
             "thread (ASan+UBSan build) and concurrently with one thread per object (ThreadSanitizer build); every "
             "object's answer must equal its solo answer from the plain executor and the model's; any ThreadSanitizer "
@@ -39,8 +59,10 @@ class Prop(PropBase):
                 c = r.random()
                 if c < 0.6:
                     lines.append(tg.history(r, r.choice([2, 5, 12, 30]), graphic=r.random() < 0.7))
-                elif c < 0.85:
+                elif c < 0.75:
                     lines.append(sg.frames(r, r.choice([1, 2, 4])))
+                elif c < 0.88:
+                    lines.append(input_script(r))
                 elif c < 0.9:
                     lines.append("D 1 %d" % r.randrange(256))
                 elif c < 0.95:
@@ -75,7 +97,7 @@ class Prop(PropBase):
             if rc != 0 or len(solo) != len(lines):
                 failures.append({"what": "solo executor run failed", "lines": lines, "stderr": err[-800:]})
                 continue
-            stateful = sum(1 for l in lines if l[0] in "TS" and l.count(";") >= 2)
+            stateful = sum(1 for l in lines if (l[0] in "TS" and l.count(";") >= 2) or (l[0] == "I" and l.count(",") >= 2))
             if stateful >= 2:
                 nontrivial.add("\n".join(lines))
             body = "\n".join(lines) + "\n"
